@@ -20,6 +20,7 @@ from vtlengine.API._InternalApi import (
     load_vtl,
 )
 from vtlengine.API._sdmx_utils import _build_mapping_dict, _convert_sdmx_mappings
+from vtlengine import _verif
 from vtlengine.AST import Start
 from vtlengine.AST.ASTConstructor import ASTVisitor
 from vtlengine.AST.ASTString import ASTString
@@ -91,6 +92,7 @@ def create_ast(text: str) -> Start:
     # raw pointers into it, so parse() and the lazy tree traversal in visitStart()
     # must run under parser_lock to stay safe across threads (see parser_lock docs).
     with parser_lock:
+        _verif.access("parser_state", "w", "parse")
         cst = vtl_cpp_parser.parse(text)
         error = vtl_cpp_parser.get_syntax_error()
         if error is not None:
@@ -103,6 +105,7 @@ def create_ast(text: str) -> Start:
             )
         visitor = ASTVisitor()
         ast = visitor.visitStart(cst)
+        _verif.access("parser_state", "r", "walked")
     DAGAnalyzer.create_dag(ast)
     return ast
 
